@@ -107,6 +107,8 @@ Violations(e) ==
             \cup (IF a.sender = o.sender /\ a.sender = e.exp THEN {} ELSE {Sig("sender-changed", SenderCls(c), e)})
             \cup (IF e.m2.getSender = e.exp /\ e.m2.fromSet = e.exp /\ e.m2.signers = e.exp
                   THEN {} ELSE {Sig("sender-of-message", SenderCls(c), e)})
+            \* the From field is not part of the signed content: whatever it says, the recovered sender is the key holder
+            \cup (IF e.m2.getSenderForeignFrom \in {e.exp, "skip"} THEN {} ELSE {Sig("sender-echoes-From-field", SenderCls(c), e)})
             \cup {Sig("field:" \o f, FieldCls(f, c), e) : f \in {g \in FieldNames : o[g] # a[g]}}
             \cup (IF e.m2.type = o.type THEN {} ELSE {Sig("field:type", FieldCls("type", c), e)})
             \cup (IF e.m2.chainId = o.chainId THEN {} ELSE {Sig("field:chainId", FieldCls("chainId", c), e)})
